@@ -108,6 +108,8 @@ def rand_padding(rng):
     r = rng.random()
     if r < 0.3:
         return [0, 1]
+    if r < 0.38:
+        return 0                 # Table.grid() style: cells are rendered without a Padding wrapper
     if r < 0.45:
         return rng.randint(0, 3)
     if r < 0.7:
@@ -144,7 +146,7 @@ def gen_table(rng):
     for c in range(nc):
         r = rng.random()
         col = dict(jus=rng.choice(["left", "left", "center", "right", "full"]),
-                   ov="fold" if r < 0.5 else "crop" if r < 0.7 else "ellipsis",
+                   ov="fold" if r < 0.5 else "crop" if r < 0.68 else "ellipsis" if r < 0.9 else "ignore",
                    ratio=rng.randint(1, 3) if any_ratio and rng.random() < 0.7 else -1,
                    w=rng.randint(1, 10) if rng.random() < 0.1 else 0,
                    minw=rng.randint(1, 10) if rng.random() < 0.12 else 0,
